@@ -5,7 +5,7 @@ from verif.core import Infra
 META = dict(
     technique="TLC exhaustive model check of PipeConns.tla (channel of 4 buffers + partial buffer per direction, multi-step Read interleaved with the other end) and InmemListener.tla (2 Dial x 2 Accept x 1-2 Close calls at the code's step granularity, safety + termination); TLC-generated PipeConns behaviours replayed on real PipeConns (B1); start/end events of concurrent Dial/Accept/Close calls on a real InmemoryListener validated by TLC with silent internal steps (B2); direct stream check under two goroutines per direction",
     design_ref="DESIGN.md §4 C33",
-    text="PipeConnsGen makes TLC visit every distinct pipe state within MaxOps calls and try every call of the menu (Write/Read of sizes {0,(1),3,2000} and, shallower, {3, 65536, 65537, 5 MiB} on either end, with and without a fired deadline, Close) from it; each transition is printed as a behaviour with the (n, allowed errors, stream offset) of every call and replayed on a real PipeConns, comparing every result and every byte (a call the spec lets return must return; the written buffer is overwritten as soon as Write returns; after the last call both ends are drained and the bytes delivered must equal the bytes the Write calls acknowledged -- AckInv). InmemListener is model-checked exhaustively (pairing, uniqueness, nothing succeeds after Close returned, refused connections are closed, termination) and bound by validating the public-API call log of concurrent executions against it (TLC searches the unlogged internal steps), plus peer checks by passing bytes.",
+    text="PipeConnsGen makes TLC visit every distinct pipe state within MaxOps calls and try every call of the menu (Write (through every entry point: Write, WriteString, io.WriteString, bufio.Writer) / Read of sizes {0,(1),3,2000} and, shallower, {3, 65536, 65537, 5 MiB} on either end, with and without a fired deadline, Close) from it; each transition is printed as a behaviour with the (n, allowed errors, stream offset) of every call and replayed on a real PipeConns, comparing every result and every byte (a call the spec lets return must return; the written buffer is overwritten as soon as Write returns; after the last call both ends are drained and the bytes delivered must equal the bytes the Write calls acknowledged -- AckInv). InmemListener is model-checked exhaustively (pairing, uniqueness, nothing succeeds after Close returned, refused connections are closed, termination) and bound by validating the public-API call log of concurrent executions against it (TLC searches the unlogged internal steps), plus peer checks by passing bytes; tens of thousands of short executions race Close against the Dial/Accept hand-over (Accept calls already waiting, Dial and Close released together) and are judged by the pairing oracle of the spec (PairInv/UniqueInv/QuiescentInv, nothing succeeds after Close returned), the first 150 and every violating one also going through the TLC validation.",
     note="Trusted: position-determined byte pattern detects loss/duplication/reordering; log lines are written before a call starts and after it returns (interval containment); the two-goroutines-per-direction stream stress is a direct harness check, not validated by TLC. Thorough tier adds seeded simulation behaviours (depth 14) and larger constants.",
 )
 
@@ -41,22 +41,72 @@ def selftest_listener_trace(ctx, tf):
     ctx.extra["trace_selftest_rejected_at"] = "no failed dial in this run's log (self-test skipped)"
 
 
+def tlc_parallel(ctx, jobs):
+    """jobs: list of (method, args, kwargs) with method in {"tlc_mc", "tlc_gen"}.  Only the TLC processes
+    run concurrently (ctx.tlc in threads, scratch-directory numbering serialised by a lock); afterwards
+    ctx.tlc_mc / ctx.tlc_gen do their normal bookkeeping sequentially on the stored results."""
+    import threading
+    lock = threading.Lock()
+    orig = ctx._specdir
+
+    def specdir(area):
+        with lock:
+            return orig(area)
+    ctx._specdir = specdir
+    raw = [None] * len(jobs)
+
+    def work(i, args, kw):
+        try:
+            raw[i] = ("ok", ctx.tlc(*args, **{k: v for k, v in kw.items() if k != "outfile"}))
+        except BaseException as e:      # replayed in the main thread below
+            raw[i] = ("err", e)
+    ths = [threading.Thread(target=work, args=(i, a, k)) for i, (_, a, k) in enumerate(jobs)]
+    for t in ths:
+        t.start()
+    for t in ths:
+        t.join()
+    del ctx._specdir
+    out = []
+    for (m, args, kw), (st, val) in zip(jobs, raw):
+        def stored(*a, _st=st, _val=val, **k):
+            if _st == "err":
+                raise _val
+            return _val
+        ctx.tlc = stored
+        try:
+            out.append(getattr(ctx, m)(*args, **kw))
+        finally:
+            del ctx.tlc
+    return out
+
+
 def run(ctx):
-    # ---- model checking
+    # ---- model checking and behaviour generation: the TLC runs go side by side
     small = ctx.pick("{0, 3, 2000}", "{0, 1, 3, 2000}")
-    ctx.tlc_mc("util", "PipeConnsMC", "PipeConnsMC.cfg", workers=4, timeout=1500,
-               consts={"OPS": ctx.pick(3, 5), "MCWSIZES": small, "MCRSIZES": small})
-    for closers, cap in ctx.pick([("{1}", 1)], [("{1}", 1), ("{1}", 2), ("{1, 2}", 1)]):
-        ctx.tlc_mc("util", "InmemListener", "InmemListenerMC.cfg", consts={"CLOSERS": closers, "CAP": cap},
-                   workers=4, timeout=1500)
-    # ---- B1 pipes: (a) small sizes, deep enough to fill the channel; (b) size classes around 64 KiB and a
-    # write larger than anything the channel could hold in pieces (5 MiB), shallower
+    all_vias = '{"Write", "WriteString", "io.WriteString", "bufio"}'
+    two_vias = '{"Write", "WriteString"}'
+    # B1 pipes: (a) small sizes, deep enough to fill the channel, every write entry point; (b) size classes
+    # around 64 KiB and a write larger than anything the channel could hold in pieces (5 MiB), shallower
     huge_w, huge_r = "{3, 65536, 65537, 5242880}", "{3, 200000}"
     ops, ops_huge = ctx.pick((5, 3), (6, 4))
-    _, beh = ctx.tlc_gen("util", "PipeConnsGen", "PipeConnsGen.cfg", workers=4, timeout=1500,
-                         consts={"OPS": ops, "WSIZES": small, "RSIZES": small, "PRINTALL": "TRUE"})
-    _, beh2 = ctx.tlc_gen("util", "PipeConnsGen", "PipeConnsGen.cfg", workers=4, timeout=1500,
-                          consts={"OPS": ops_huge, "WSIZES": huge_w, "RSIZES": huge_r, "PRINTALL": "TRUE"})
+    jobs = [("tlc_mc", ("util", "PipeConnsMC", "PipeConnsMC.cfg"),
+             dict(workers=2, timeout=1500, consts={"OPS": ctx.pick(3, 5), "MCWSIZES": small, "MCRSIZES": small})),
+            ("tlc_mc", ("util", "InmemListener", "InmemListenerMC.cfg"), dict(consts={"CLOSERS": "{1}", "CAP": 1}, workers=2, timeout=1500)),
+            # deep (fills the channel), plain Write (thorough: Write and WriteString)
+            ("tlc_gen", ("util", "PipeConnsGen", "PipeConnsGen.cfg"),
+             dict(workers=2, timeout=1500, consts={"OPS": ops, "WSIZES": small, "RSIZES": ctx.pick("{3, 2000}", small), "PRINTALL": "TRUE",
+                                                  "VIAS": ctx.pick('{"Write"}', two_vias)})),
+            # every write entry point from every state within 4 (thorough: 5) calls
+            ("tlc_gen", ("util", "PipeConnsGen", "PipeConnsGen.cfg"),
+             dict(workers=2, timeout=1500, consts={"OPS": ctx.pick(4, 5), "WSIZES": "{0, 3, 2000}", "RSIZES": ctx.pick("{3, 2000}", "{0, 3, 2000}"),
+                                                  "PRINTALL": "TRUE", "VIAS": all_vias})),
+            ("tlc_gen", ("util", "PipeConnsGen", "PipeConnsGen.cfg"),
+             dict(workers=2, timeout=1500, consts={"OPS": ops_huge, "WSIZES": huge_w, "RSIZES": huge_r, "PRINTALL": "TRUE", "VIAS": two_vias}))]
+    _, _, (_, beh), (_, beh3), (_, beh2) = tlc_parallel(ctx, jobs)
+    beh2 = beh2 + beh3
+    if not ctx.quick:
+        for closers, cap in [("{1}", 2), ("{1, 2}", 1)]:
+            ctx.tlc_mc("util", "InmemListener", "InmemListenerMC.cfg", consts={"CLOSERS": closers, "CAP": cap}, workers=4, timeout=1500)
     if not beh or not beh2:
         raise Infra("PipeConnsGen produced no behaviours")
     beh += beh2
@@ -64,7 +114,7 @@ def run(ctx):
     sizes = "%s; %s/%s within %d calls" % (small, huge_w, huge_r, ops_huge)
     if not ctx.quick:
         _, sim = ctx.tlc_gen("util", "PipeConnsGen", "PipeConnsGen.cfg", workers=1,
-                             consts={"OPS": 14, "WSIZES": "{0, 1, 3, 1024, 2000, 65537}", "RSIZES": "{0, 1, 3, 1024, 2000, 100000}", "PRINTALL": "FALSE"},
+                             consts={"OPS": 14, "WSIZES": "{0, 1, 3, 1024, 2000, 65537}", "RSIZES": "{0, 1, 3, 1024, 2000, 100000}", "PRINTALL": "FALSE", "VIAS": all_vias},
                              timeout=900, simulate="num=4000", depth=200, args=["-seed", str(ctx.seed)])
         beh += sim
     p = os.path.join(ctx.scratch, "c33_beh.ndjson")
@@ -73,7 +123,8 @@ def run(ctx):
             f.write(json.dumps(b) + "\n")
     # one build: TestVerifC33Pipe (B1 replay), TestVerifC33Stream (direct), TestVerifC33Listener (B2 log)
     recs = ctx.go_test("fasthttputil", ["c33_"], "^TestVerifC33", infile=p, timeout=1700,
-                       env={"VERIF_C33_STREAMS": ctx.pick(150, 1500), "VERIF_C33_TRACES": ctx.pick(100, 1200)})
+                       env={"VERIF_C33_STREAMS": ctx.pick(150, 1500), "VERIF_C33_TRACES": ctx.pick(60, 1200),
+                            "VERIF_C33_RACES": ctx.pick(30000, 400000), "VERIF_C33_RACES_LOGGED": ctx.pick(60, 300)})
     ctx.absorb(recs)
     tf = ctx.extra.pop("trace_file", None)
     if not tf or not os.path.exists(tf):
